@@ -16,6 +16,9 @@ pub enum Spec {
     /// misuse that fails: an evaluator whose board already holds a turn card; building the iterator
     /// panics (before and after any change) - what matters is that nobody else notices
     BadBoard { cards: Vec<u8> },
+    /// a solver's outer loop: for each configuration in turn build an evaluator, take `take` showdowns, and
+    /// drop it; one operation per configuration (many short-lived evaluators beside a long-lived one)
+    Churn { cfgs: Vec<Config>, take: usize },
 }
 
 /// Moves a value to another thread even if its type does not (or no longer does) implement Send. Whether the
@@ -31,6 +34,7 @@ pub enum State {
     EvalRunning(Iter),
     ParserFresh,
     ParserHas(HandRange, usize),
+    ChurnAt(usize),
 }
 
 pub struct Actor {
@@ -56,6 +60,7 @@ impl Actor {
             Spec::Abandon { .. } => State::EvalFresh,
             Spec::Parser { .. } => State::ParserFresh,
             Spec::BadBoard { .. } => State::ParserFresh,
+            Spec::Churn { .. } => State::ChurnAt(0),
         };
         Actor { spec: spec.clone(), state, done_nones: 0 }
     }
@@ -121,6 +126,22 @@ impl Actor {
                 self.state = State::ParserHas(r, k + 1);
                 o
             }
+            (State::ChurnAt(k), Spec::Churn { cfgs, take }) => {
+                let cfg = &cfgs[k % cfgs.len()];
+                let mut out = vec![];
+                {
+                    let mut it = cfg.evaluator().into_iter();
+                    for _ in 0..*take {
+                        match it.next() {
+                            Some(sd) => out.push(showdown_sig(&sd)),
+                            None => out.push("None".to_string()),
+                        }
+                    }
+                    // `it` is dropped here, in the middle of its enumeration
+                }
+                self.state = State::ChurnAt(k + 1);
+                out.join(" ; ")
+            }
             _ => unreachable!("actor state does not match its spec"),
         }
     }
@@ -161,6 +182,11 @@ pub fn solo(spec: &Spec) -> Vec<String> {
         Spec::BadBoard { .. } => {
             out.push(a.step());
         }
+        Spec::Churn { cfgs, .. } => {
+            for _ in 0..cfgs.len() {
+                out.push(a.step());
+            }
+        }
     }
     out
 }
@@ -183,12 +209,28 @@ pub fn abandon_spec(flop: [&str; 3], ranges: &[&[(&str, f32)]], scope: (u8, u8, 
     }
 }
 
+/// `n` configurations on `n` distinct flops (the first n of: three consecutive cards of the deck order starting
+/// at card 3k, none of which is in the ranges used here), same ranges
+pub fn churn_spec(n: usize, ranges: &[&[(&str, f32)]], take: usize) -> Spec {
+    let rs: Vec<Vec<(Combo, f32)>> = ranges.iter().map(|r| r.iter().map(|(t, w)| (Combo::new(c(&t[0..2]), c(&t[2..4])), *w)).collect()).collect();
+    let used: Vec<u8> = rs.iter().flatten().flat_map(|(cb, _)| [cb.0, cb.1]).collect();
+    let free: Vec<u8> = (0..52u8).filter(|x| !used.contains(x)).collect();
+    let mut cfgs = vec![];
+    for k in 0..n {
+        // flops {free[k], free[k+1], free[k+17]}: pairwise distinct sets
+        let flop = [free[k], free[k + 1], free[(k + 17) % free.len()]];
+        cfgs.push(Config { flop, ranges: rs.clone(), label: Config::describe_ranges(&rs) });
+    }
+    Spec::Churn { cfgs, take }
+}
+
 pub fn describe(spec: &Spec) -> String {
     match spec {
         Spec::Eval { cfg, scope, .. } => format!("eval[{} scope={:?}]", cfg.key(), scope),
         Spec::Abandon { cfg, scope, take } => format!("abandon-after-{}[{} scope={:?}]", take, cfg.key(), scope),
         Spec::Parser { text } => format!("parser[{}]", text),
         Spec::BadBoard { cards } => format!("bad-board[{}]", cards_text(cards)),
+        Spec::Churn { cfgs, take } => format!("churn[{} evaluators on flops {}.., {} showdowns each, then dropped]", cfgs.len(), cfgs.iter().take(3).map(|c| cards_text(&c.flop)).collect::<Vec<_>>().join("/"), take),
     }
 }
 
@@ -204,6 +246,8 @@ pub fn groups() -> Vec<(&'static str, Vec<Spec>)> {
     let r6: &[(&str, f32)] = &[("JdTh", 1.0), ("9c9d", 0.5)];
     let r7: &[(&str, f32)] = &[("JdTh", 1.0), ("9c9d", 0.5), ("7s6s", 0.25), ("5h5d", 1.0)];
     let r8: &[(&str, f32)] = &[("QcJc", 1.0), ("4s4h", 0.5)];
+    let r7r: &[(&str, f32)] = &[("5h5d", 1.0), ("7s6s", 0.25), ("9c9d", 0.5), ("JdTh", 1.0)];
+    let r5r: &[(&str, f32)] = &[("5d5h", 1.0), ("QcQd", 0.5)];
     vec![
         // identical flop, ranges and scope: 1 + 5 showdowns + None + 2 extra = 9 operations each
         ("identical", vec![eval_spec(f1, &[r1, r2], (0, 1, 0, 6), 2), eval_spec(f1, &[r1, r2], (0, 1, 0, 6), 2)]),
@@ -237,6 +281,12 @@ pub fn groups() -> Vec<(&'static str, Vec<Spec>)> {
         ("three-players", vec![eval_spec(f1, &[r1, r3, r2], (0, 1, 0, 4), 1), eval_spec(f1, &[r1, r3, r2], (0, 1, 0, 4), 1)]),
         // an evaluator abandoned in the middle of a deal (dropped with a non-zero odometer), then others built after it
         ("after-an-abandoned-one", vec![abandon_spec(f1, &[r7, r7], (0, 1, 0, 3), 3), eval_spec(f1, &[r7, r8], (0, 1, 0, 3), 1), eval_spec(f2, &[r8], (0, 1, 0, 3), 1)]),
+        // ranges that are EQUAL (same combos, same weights) but were collected in another order: each evaluator
+        // enumerates in its own range's order; recognising "the same players" by == must not hand one the other's
+        ("equal-ranges-other-order", vec![eval_spec(f1, &[r7, r5], (0, 1, 0, 2), 1), eval_spec(f1, &[r7r, r5r], (0, 1, 0, 2), 1)]),
+        // a long-lived evaluator beside a solver loop that builds, uses and drops an evaluator on each of 20 other
+        // flops (tables of per-board or per-job state with a capacity, eviction or compaction)
+        ("long-lived-beside-churn", vec![eval_spec(f1, &[r4, r5], (0, 1, 0, 5), 1), churn_spec(20, &[r6], 2)]),
         // three evaluators, 6 operations each
         ("three-evaluators", vec![eval_spec(f1, &[r1], (0, 1, 0, 4), 1), eval_spec(f1, &[r1], (0, 1, 0, 4), 1), eval_spec(f2, &[r3], (47, 48, 48, 49), 3)]),
         // four evaluators, 3-4 operations each
